@@ -85,6 +85,35 @@ static std::string apply_and_check(DocT& doc, MV& model, const std::vector<std::
     copy.CopyFrom(doc, copy.GetAllocator(), true);
     if (!(copy == doc)) return "deep copy of the updated document is not equal to it";
   }
+  // ... and still an ordinary mutable document: every container takes one more child (objects: a new key; arrays: an element),
+  // the result reads back as the value plus those children (capacity / size bookkeeping of the containers ParseSchema built)
+  {
+    using N = typename DocT::NodeType;
+    auto& alloc = doc.GetAllocator();
+    std::function<void(N&, MV&)> grow = [&](N& n, MV& mv) {
+      if (n.IsObject()) {
+        for (size_t i = 0; i < mv.o.size(); i++) grow((n.MemberBegin() + (long)i)->value, mv.o[i].second);
+        if (!mv.find("\x03" "added-afterwards")) {
+          N v;
+          v.SetUint64(77);
+          n.AddMember("\x03" "added-afterwards", std::move(v), alloc);
+          mv.o.emplace_back("\x03" "added-afterwards", MV::uint(77));
+        }
+      } else if (n.IsArray()) {
+        for (size_t i = 0; i < mv.a.size(); i++) grow(n[i], mv.a[i]);
+        N v;
+        v.SetUint64(78);
+        n.PushBack(std::move(v), alloc);
+        mv.a.push_back(MV::uint(78));
+      }
+    };
+    grow(static_cast<N&>(doc), model);
+    std::string err;
+    MV got = walk(doc, &err);
+    if (!err.empty()) return "document inconsistent after adding one child to every container: " + err;
+    if (!eq_ordered(model, got)) return "after ParseSchema, adding one child to every container gives a wrong document at " + mv_diff(model, got);
+    if (doc.Dump() != DocT().Parse(doc.Dump()).Dump()) return "after ParseSchema + growth the document does not re-serialise stably";
+  }
   return "";
 }
 
